@@ -95,7 +95,7 @@ MANIFEST = {
             "C#: modelled and proved like C++ (file set, realised operations, every operation once, namespace wrap), observed with a tokenizer; "
             "NOT checked: that a C# compiler accepts the output (none available) -- e.g. whether 'override' on a method implementing an INTERFACE "
             "member is accepted is outside what is proved or observed. K-C19-8 (every 'virtual' in a realised C# method became 'override', also "
-            "inside names) is repaired (1e812e6; corpus/C19/cs_virtual_word.json); K-C19-9 (A::B.csproj) is known. K-C19-7 (names lost = < > ; ( ) and were cut at colons) is repaired (fb98a7e; corpus/C19/operator_names.json); what remains of mass_replace concerns values: K-C19-10. Known findings K-C19-*.",
+            "inside names) is repaired (ad20a65; corpus/C19/cs_virtual_word.json); K-C19-9 (A::B.csproj) is known. K-C19-7 (names lost = < > ; ( ) and were cut at colons) is repaired (b2960c5; corpus/C19/operator_names.json); what remains of mass_replace concerns values: K-C19-10. Known findings K-C19-*.",
 }
 MANIFEST["text"] += " " + MANIFEST.pop("adaptor")
 RULE = ("the two shipped class diagrams and mutants of them (1-4 random edits of the parsed object graph: rename/remove/retype classes, "
